@@ -68,9 +68,17 @@ def classify(rec):
     dev = rec.get("deviation") or ""
     if not dev or rec.get("kind") == "hang" or rec.get("hang"):
         return []
-    if dev == "all":
-        return sorted(FINDINGS)
-    return [d for d in dev.split("+") if d in FINDINGS]
+    keys = []
+    for d in dev.split("+"):
+        if d == "any":          # every deviation together
+            keys += sorted(FINDINGS)
+        elif d == "all":        # the three deviations of the table lookup together
+            keys += ["exact", "late", "tie"]
+        elif d in FINDINGS:
+            keys.append(d)
+        else:
+            return []
+    return sorted(set(keys))
 
 
 class Tally:
@@ -545,7 +553,9 @@ def part_trace(ctx, res, tally):
                 not_reproduced += 1
                 continue
             reproduced += 1
-            rec = {"lvl": lvl, "seed": ctx.seed, "deviation": b.get("dev", ""), "tab": ln["tab"], "table": ln["table"],
+            dv = b.get("dev") or {}
+            rec = {"lvl": lvl, "seed": ctx.seed, "deviation": "+".join(sorted(dv.get("devs", []))) if dv.get("found") else "",
+                   "tab": ln["tab"], "table": ln["table"],
                    "h": x["h"], "qt": x["qt"], "query": x["query"],
                    "expect": b["exp"], "expected": pr.get("expected") or b["exp"], "got": pr.get("got"),
                    "hang": pr.get("hang", False),
